@@ -19,34 +19,45 @@ EXTENDS Integers, Sequences, FiniteSets, TLC
 
 CONSTANTS NE, Await, Buffered, SyncCons
 
-VARIABLES called, st, taskDone, delivered, busy, emitDone, rc, fired
-vars == <<called, st, taskDone, delivered, busy, emitDone, rc, fired>>
+VARIABLES called, st, taskDone, delivered, busy, emitDone, rc, fired,
+          q      \* Buffered: the buffer's queue between map and gather
+vars == <<called, st, taskDone, delivered, busy, emitDone, rc, fired, q>>
 Elems == 1 .. NE
 
 Init == /\ called = 0 /\ st = [e \in Elems |-> "none"] /\ taskDone = [e \in Elems |-> FALSE]
         /\ delivered = <<>> /\ busy = {} /\ emitDone = [e \in Elems |-> FALSE]
-        /\ rc = [e \in Elems |-> 0] /\ fired = <<>>
+        /\ rc = [e \in Elems |-> 0] /\ fired = <<>> /\ q = <<>>
 
 EmitCall(e) ==
     /\ e = called + 1 /\ e <= NE
     /\ Await => \A f \in 1 .. called : emitDone[f]
     /\ called' = e /\ st' = [st EXCEPT ![e] = "scattering"]
     /\ rc' = [rc EXCEPT ![e] = @ + 1]                          \* scatter.update retains
-    /\ UNCHANGED <<taskDone, delivered, busy, emitDone, fired>>
+    /\ UNCHANGED <<taskDone, delivered, busy, emitDone, fired, q>>
 
 \* client.scatter finished: the future travels through map (task submitted) into gather.update, which retains and waits
 ScatterDone(e) ==
     /\ st[e] = "scattering"
-    /\ Buffered => \A f \in 1 .. (e - 1) : st[f] \in {"done"}     \* buffer.cb hands on one element at a time
-    /\ st' = [st EXCEPT ![e] = "computing"]
-    /\ rc' = [rc EXCEPT ![e] = @ + 1]                          \* gather.update retains
+    /\ IF Buffered
+       THEN \* the future is queued in the buffer; scatter's own reference is handed over to the buffer
+            /\ st' = [st EXCEPT ![e] = "queued"] /\ q' = Append(q, e) /\ rc' = rc
+       ELSE /\ st' = [st EXCEPT ![e] = "computing"] /\ q' = q
+            /\ rc' = [rc EXCEPT ![e] = @ + 1]                 \* gather.update retains
+    /\ UNCHANGED <<called, taskDone, delivered, busy, emitDone, fired>>
+
+\* buffer.cb hands the head of its queue to gather.update and waits for it before taking the next one
+HandOver(e) ==
+    /\ Buffered /\ q # <<>> /\ Head(q) = e
+    /\ \A f \in Elems : st[f] \notin {"computing", "delivering"}
+    /\ q' = Tail(q) /\ st' = [st EXCEPT ![e] = "computing"]
+    /\ rc' = [rc EXCEPT ![e] = @ + 1]
     /\ UNCHANGED <<called, taskDone, delivered, busy, emitDone, fired>>
 
 \* the cluster finishes the task(s) of element e -- in any order
 TaskFinish(e) ==
-    /\ st[e] \in {"scattering", "computing"} /\ ~taskDone[e]
+    /\ st[e] \in {"scattering", "queued", "computing"} /\ ~taskDone[e]
     /\ taskDone' = [taskDone EXCEPT ![e] = TRUE]
-    /\ UNCHANGED <<called, st, delivered, busy, emitDone, rc, fired>>
+    /\ UNCHANGED <<called, st, delivered, busy, emitDone, rc, fired, q>>
 
 \* client.gather returned: the result is emitted to the sink
 GatherDone(e) ==
@@ -54,10 +65,10 @@ GatherDone(e) ==
     /\ delivered' = Append(delivered, e)
     /\ busy' = IF SyncCons THEN busy ELSE busy \cup {e}
     /\ st' = [st EXCEPT ![e] = "delivering"]
-    /\ UNCHANGED <<called, taskDone, emitDone, rc, fired>>
+    /\ UNCHANGED <<called, taskDone, emitDone, rc, fired, q>>
 
 ConsumerDone(e) == /\ e \in busy /\ busy' = busy \ {e}
-                   /\ UNCHANGED <<called, st, taskDone, delivered, emitDone, rc, fired>>
+                   /\ UNCHANGED <<called, st, taskDone, delivered, emitDone, rc, fired, q>>
 
 \* gather releases, its awaitable completes, scatter releases
 Release(e) ==
@@ -65,14 +76,16 @@ Release(e) ==
     /\ st' = [st EXCEPT ![e] = "done"]
     /\ rc' = [rc EXCEPT ![e] = @ - 2]
     /\ fired' = IF rc[e] - 2 <= 0 THEN Append(fired, e) ELSE fired
-    /\ UNCHANGED <<called, taskDone, delivered, busy, emitDone>>
+    /\ UNCHANGED <<called, taskDone, delivered, busy, emitDone, q>>
 
-EmitDone(e) == /\ st[e] = "done" /\ ~emitDone[e] /\ emitDone' = [emitDone EXCEPT ![e] = TRUE]
-               /\ UNCHANGED <<called, st, taskDone, delivered, busy, rc, fired>>
+\* the producer's awaitable: scatter.update returns when everything up to the next buffering node has taken the element
+EmitDone(e) == /\ (IF Buffered THEN st[e] \notin {"none", "scattering"} ELSE st[e] = "done")
+               /\ ~emitDone[e] /\ emitDone' = [emitDone EXCEPT ![e] = TRUE]
+               /\ UNCHANGED <<called, st, taskDone, delivered, busy, rc, fired, q>>
 
-Next == \E e \in Elems : EmitCall(e) \/ ScatterDone(e) \/ TaskFinish(e) \/ GatherDone(e) \/ ConsumerDone(e) \/ Release(e) \/ EmitDone(e)
+Next == \E e \in Elems : EmitCall(e) \/ ScatterDone(e) \/ HandOver(e) \/ TaskFinish(e) \/ GatherDone(e) \/ ConsumerDone(e) \/ Release(e) \/ EmitDone(e)
 Spec == Init /\ [][Next]_vars
-FairSpec == Spec /\ \A e \in Elems : WF_vars(EmitCall(e)) /\ WF_vars(ScatterDone(e)) /\ WF_vars(TaskFinish(e)) /\ WF_vars(GatherDone(e))
+FairSpec == Spec /\ \A e \in Elems : WF_vars(EmitCall(e)) /\ WF_vars(ScatterDone(e)) /\ WF_vars(HandOver(e)) /\ WF_vars(TaskFinish(e)) /\ WF_vars(GatherDone(e))
                                      /\ WF_vars(ConsumerDone(e)) /\ WF_vars(Release(e)) /\ WF_vars(EmitDone(e))
 
 ----------------------------------------------------------------------------
@@ -81,11 +94,13 @@ ExactlyOnce == \A i, j \in 1 .. Len(delivered) : i # j => delivered[i] # deliver
 Quiescent == \A e \in 1 .. called : st[e] = "done"
 Lossless == Quiescent => Len(delivered) = called
 \* ... and in the same order, whatever order the cluster finishes tasks in
+\* (guaranteed for producers that await their emits; with fire-and-forget producers not even the scatter
+\* calls are ordered)
 SameOrder == \A i, j \in 1 .. Len(delivered) : i < j => delivered[i] < delivered[j]
 AllDelivered == <>(Len(delivered) = NE)
 \* reference counters balanced as in the local pipeline
 CbSafe == \A i \in 1 .. Len(fired) : st[fired[i]] = "done"
-RcBalance == /\ \A e \in Elems : rc[e] = (CASE st[e] = "scattering" -> 1 [] st[e] \in {"computing", "delivering"} -> 2 [] OTHER -> 0)
+RcBalance == /\ \A e \in Elems : rc[e] = (CASE st[e] \in {"scattering", "queued"} -> 1 [] st[e] \in {"computing", "delivering"} -> 2 [] OTHER -> 0)
              /\ \A e \in Elems : st[e] = "done" => \E i \in 1 .. Len(fired) : fired[i] = e
              /\ \A e \in Elems : Cardinality({i \in 1 .. Len(fired) : fired[i] = e}) <= 1
 =============================================================================
